@@ -11,11 +11,12 @@ import (
 func init() { verifRegister("C15_synth", VerifHarness_C15_synth) }
 
 // Synthetic dictionary built with the real constructors.
-//   header : 8 STRING req, 9 LENGTH req, 35 STRING req, 49 STRING req, 50 STRING opt
-//   trailer: 93 LENGTH opt, 10 STRING req
-//   D      : 11 STRING req, 58 STRING opt, 40 CHAR enum{1,2} opt, 99 INT opt, 141 BOOLEAN opt, 44 PRICE opt, 60 UTCTIMESTAMP opt,
-//            group 73 opt { 67 INT (delimiter, req), 68 STRING req, 69 STRING opt, group 78 opt { 79 STRING req, 80 STRING opt } }
-//   E      : 55 STRING opt   (a field defined in the dictionary but not for D)
+//
+//	header : 8 STRING req, 9 LENGTH req, 35 STRING req, 49 STRING req, 50 STRING opt
+//	trailer: 93 LENGTH opt, 10 STRING req
+//	D      : 11 STRING req, 58 STRING opt, 40 CHAR enum{1,2} opt, 99 INT opt, 141 BOOLEAN opt, 44 PRICE opt, 60 UTCTIMESTAMP opt,
+//	         group 73 opt { 67 INT (delimiter, req), 68 STRING req, 69 STRING opt, group 78 opt { 79 STRING req, 80 STRING opt } }
+//	E      : 55 STRING opt   (a field defined in the dictionary but not for D)
 func c15Dicts(fixt bool) (app, transport *datadictionary.DataDictionary) {
 	types := map[int]*datadictionary.FieldType{}
 	ft := func(tag int, typ string) *datadictionary.FieldType {
